@@ -143,23 +143,7 @@ def o_verify(ctx, case):
     ctx.sample({k: v for k, v in case.items()}, f"{arm}:{entry}")
 
 
-_derived = {}
-
-
-def derived_suite(suite, tag, pop_tag):
-    """An application-specific ciphersuite: the stock class with its domain tags overridden, which is how this
-    API is given another tag.  None if the library refuses to be subclassed."""
-    key = (suite, tag, pop_tag)
-    if key not in _derived:
-        base = sc.lib_suite(suite)
-        attrs = {"DST": tag}
-        if suite == "pop":
-            attrs["POP_TAG"] = pop_tag
-        try:
-            _derived[key] = type("App" + base.__name__, (base,), attrs)
-        except TypeError:
-            _derived[key] = None
-    return _derived[key]
+derived_suite = sc.derived_suite
 
 
 def o_derived(ctx, case):
